@@ -13,9 +13,9 @@ let rec nth_z (l : z list) (i : int) : z = match l with [] -> failwith "nth" | x
 
 let open_res = function
   | "ok" -> LcOpenOk | "already" -> LcOpenAlready | "start" -> LcOpenErrStart | "ctx" -> LcOpenErrCtx
-  | "closed" -> LcOpenErrClosed | s -> failwith ("open class " ^ s)
+  | "closed" -> LcOpenErrClosed | "panic" | "hung" -> LcOpenErrStart | s -> failwith ("open class " ^ s)
 let close_res = function
-  | "ok" | "timeout" | "other" -> LcCloseOk | "notopen" -> LcCloseNotOpen | s -> failwith ("close class " ^ s)
+  | "ok" | "timeout" | "other" | "hung" | "panic" -> LcCloseOk | "notopen" -> LcCloseNotOpen | s -> failwith ("close class " ^ s)
 let rec nat_of_int' (i : int) : nat = if i <= 0 then O else S (nat_of_int' (i - 1))
 let rec parse_obs toks acc =
   match toks with
